@@ -3,7 +3,7 @@ CONSTANTS
   MaxStmts = 3
   MaxDepth = 3
   MaxUnits = 1
-  MaxVar = 9
+  MaxVar = 30
   UnitKinds <- SweepUnits
   ConKinds <- Empty
   SpecKinds <- Empty
